@@ -311,6 +311,9 @@ private:
             const SpecifierListSyntax* specList,
             DeclaratorSyntax*& decltor,
             ExtKR_ParameterDeclarationListSyntax* paramKRList);
+    void adoptTagDeclarationAsSpecifier(
+            DeclarationSyntax*& decl,
+            SpecifierListSyntax*& specList);
     bool parseDeclarationOrStructDeclaration_AtFollowOfSpecifiers(
             DeclarationSyntax*& decl,
             SpecifierListSyntax*& specList,
